@@ -15,7 +15,9 @@ def build(run: Run):
     eng = run.eng
     # the order used by the threshold test, and the aggregation the verdict comes from
     run.verify("analysis.Severity.__lt__", "analysis.Severity.__eq__", "analysis.Severity.__le__", "analysis.AnalysisResults.severity",
-               "analysis.AnalysisResults.to_dict", "analysis.check_safety", "exception.UnsafeFileError.__init__")
+               "analysis.AnalysisResults.to_dict", "analysis.check_safety", "exception.UnsafeFileError.__init__",
+               "analysis.AnalysisContext.__init__", "analysis.AnalysisContext.analyze", "analysis.AnalysisContext.results",
+               "analysis.Analyzer.analyze", "analysis.AnalysisResults.__init__")
     # the checked loader: path obligations (fail-closed, sink dominance, same bytes, same object)
     run.verify("loader.load", extra_post=faces.loader_load_path)
     # the three ways of arming: each makes pickle.load *be* loader.load with the default threshold
